@@ -31,9 +31,10 @@ func init() {
 			{Rule: "KIND-CALL", Bad: "canaryBadSwapZoom", Good: "canaryGoodZoomCall"},
 		}})
 	register(&propSpec{ID: "C04", Level: "other", Run: runC04,
-		Explain: otherNote + "C04: decided = the ancestor computation floors the vertical index; the result is de-duplicated; an input is passed through unmerged only if it is coarser than the target on some axis and is a merge candidate otherwise (finite ordering enumeration over (hZoom vs target, vZoom vs target)); wrapper delegation.",
+		Explain: otherNote + "C04: decided = the ancestor computation floors the vertical index; the result is de-duplicated; the unit zooms of the division are final per-axis maxima over all inputs (not a running maximum in use, not one element's zooms); no input, unit or group is dropped; an input is passed through unmerged only if it is coarser than the target on some axis and is a merge candidate otherwise (finite ordering enumeration over (hZoom vs target, vZoom vs target)); wrapper delegation.",
 		Canary: []CanaryExpect{
 			{Rule: "ROUND", Bad: "canaryBadQuoF", Good: "canaryGoodShiftF"},
+			{Rule: "UNIT-ZOOM", Bad: "canaryBadUnitZoomPartial", Good: "canaryGoodUnitZoomFinal"},
 		}})
 	register(&propSpec{ID: "C09", Level: "other", Run: runC09,
 		Explain: otherNote + "C09: decided = every place that quantises or coarsens a vertical index (point lookup, zoom-out, merge ancestor, altitude-key scaling) uses one rounding mode, floor; the overlap check aligns zooms with integrate.ChangeExtendedSpatialIdsZoom itself at the per-axis minimum zoom; merge eligibility is the same per-axis ordering test.",
